@@ -7,6 +7,7 @@ pub mod h1engine;
 pub mod httpwire;
 pub mod props;
 pub mod simnet;
+pub mod streams;
 pub mod runner;
 pub mod util;
 
